@@ -18,6 +18,20 @@ BUILTIN_NAMES = {
 }
 
 
+_assigned_cache = {}
+
+
+def _assigned_names(fnode):
+  k = id(fnode)
+  if k not in _assigned_cache:
+    names = set()
+    for m in ast.walk(fnode):
+      if isinstance(m, ast.Name) and isinstance(m.ctx, ast.Store):
+        names.add(m.id)
+    _assigned_cache[k] = (fnode, names)
+  return _assigned_cache[k][1]
+
+
 class ExprMixin(object):
 
   # ---------------------------------------------------------------- names
@@ -67,7 +81,8 @@ class ExprMixin(object):
         if fty.kind in ('list', 'vtuple'):
           st.assume(st.heap.len(v.t) >= 0)
         if fty.kind == 'opt' or (fty.kind in ('list', 'vtuple') and fty.args
-                                 and fty.args[0].kind in ('obj', 'str', 'int')):
+                                 and fty.args[0].kind in ('obj', 'str', 'int')) \
+            or (fty.kind == 'dict' and fty.args and fty.args[0].kind == 'obj'):
           ops.assume_type(v, st)
         note_alloc(v, st)
       return v
@@ -168,6 +183,11 @@ class ExprMixin(object):
       return
     g = self.resolve_global(n.id, self.cur_mod)
     if g is None:
+      fnode = getattr(self, 'cur_fn_node', None) or getattr(self, 'node', None)
+      if fnode is not None and n.id in _assigned_names(fnode):
+        # a local that is not bound on this path (e.g. after a `with` whose __exit__ swallowed an exception)
+        yield st, Exc('UnboundLocalError')
+        return
       raise Unsupported('unknown name %s' % n.id)
     yield st, g
 
@@ -286,6 +306,10 @@ class ExprMixin(object):
         if rt is not None:
           yield st, self.pure_app('%s.__getitem__' % base.ty.name, [base, idx], rt, st)
           return
+    if getattr(self, 'mode', 'vc') == 'event' and isinstance(base, VRef) and base.ty.kind in ('any', 'opt', 'union', 'obj', 'callable'):
+      # an opaque container: indexing is an observable action of that object
+      yield from self.call_opaque(VBound(base, '__getitem__'), [idx], {}, st)
+      return
     raise Unsupported('subscript of %r' % (base,))
 
   def ev_slice(self, n, st):
